@@ -172,6 +172,8 @@ static int32_t wr_data(struct jls_core_fsr_s * self) {
             data_const |= (data_const << 4);
         }
         omit_data = is_mem_const(self->data->data, data_length, data_const);
+        // a partial (final) block determines the signal length: always store it
+        omit_data &= (self->data->header.entry_count >= self->data_length);
     }
 
     // cannot omit first chunk, which stores the sample_id offset.
